@@ -17,7 +17,7 @@ from unittest import mock
 from btclib.curves import Curve, mult, secp256k1
 from btclib.curves import curve as _curve
 from btclib.curves.curve import CURVES, _y_even_var
-from btclib.ecc import bip340_nonce, ssa
+from btclib.ecc import bip340_nonce, commit_nonce, ssa
 
 from . import common, shared
 from .common import hx, unhx
@@ -53,7 +53,7 @@ except Exception:  # pragma: no cover  (OpenSSL without the legacy provider)
     pass
 
 _EC: dict[str, Curve] = {"secp256k1": secp256k1}
-for _name in ("secp192k1", "secp224k1", "nistp256", "secp160r1", "bpp256r1"):
+for _name in ("secp192k1", "secp224k1", "nistp256", "secp160r1", "secp160k1", "secp160r2", "bpp256r1"):
     if _name in CURVES and (CURVES[_name].p % 4 == 3 or CURVES[_name].p % 8 == 5):
         _EC[_name] = CURVES[_name]
 
@@ -280,7 +280,130 @@ def impl(line: str) -> str:  # noqa: C901, PLR0911, PLR0912
         ec, hf = _ec(t[1]), _HF[t[2]]
         return common.call_impl(ssa.verify_, unhx(t[3]), int(t[4]), _sig(int(t[5]), int(t[6]), ec), hf,
                                 commit_hash=unhx(t[7]), receipt=(int(t[8]), int(t[9])))
+    if op in ("ssa.signopt", "ssa.signh"):
+        ec, hf = _ec(t[1]), _HF[t[2]]
+        commit = None if t[6] == "None" else unhx(t[6])
+        try:
+            if op == "ssa.signopt":
+                res = ssa.sign_(unhx(t[3]), int(t[4]), unhx(t[5]), ec, hf, verify=False, commit_hash=commit)
+            else:
+                res = ssa.sign(unhx(t[3]), int(t[4]), unhx(t[5]), ec, hf, verify=False, commit=commit)
+        except Exception as e:  # noqa: BLE001
+            return "err " + _cls(e)
+        if isinstance(res, tuple):
+            sg, rec = res
+            return f"ok {sg.r} {sg.s} {rec[0]} {rec[1]}"
+        return f"ok {res.r} {res.s}"
+    if op in ("ssa.verifyopt", "ssa.verifyh"):
+        ec, hf = _ec(t[1]), _HF[t[2]]
+        commit = None if t[7] == "None" else unhx(t[7])
+        rec = None if t[8] == "None" else (int(t[8]), int(t[9]))
+        sg = _sig(int(t[5]), int(t[6]), ec)
+        if op == "ssa.verifyopt":
+            return common.call_impl(ssa.verify_, unhx(t[3]), int(t[4]), sg, hf, commit_hash=commit, receipt=rec)
+        return common.call_impl(ssa.verify, unhx(t[3]), int(t[4]), sg, hf, commit=commit, receipt=rec)
+    if op == "ssa.commitnonce":
+        ec, hf = _ec(t[1]), _HF[t[2]]
+        return common.call_impl(commit_nonce.commit_nonce_, unhx(t[3]), int(t[4]), ssa._S2C_POINT_TAG, ec, hf,
+                                render=lambda v: f"{v[0]} {v[1][0]} {v[1][1]}")
     return "bad-op"
+
+
+# ------------------------------------------------------------------ independent reference signer (written from the BIP)
+def _ref_tagged(tag, m, hf):
+    t = hf(tag).digest()
+    return hf(t + t + m).digest()
+
+
+def _ref_bits(b, nlen):
+    i = int.from_bytes(b, "big")
+    return i >> max(0, 8 * len(b) - nlen)
+
+
+def ref_sign(ec, hf, msg, d0, aux):
+    """BIP340 Default Signing, generalised the way the BIP's structure dictates: field elements on p_size octets,
+    the masked key on max(n_size, hash size) octets, hash outputs cut to the leftmost nlen bits; own affine arithmetic."""
+    p, a, n = ec.p, ec._a, ec.n
+    psz = (p.bit_length() + 7) // 8
+    nlen = n.bit_length()
+    nsz = (nlen + 7) // 8
+    hlen = hf().digest_size
+    Pt = _aff_mul(d0, ec.G, p, a)
+    d = d0 if Pt[1] % 2 == 0 else n - d0
+    t = d ^ int.from_bytes(_ref_tagged(b"BIP0340/aux", aux, hf), "big")
+    buf = t.to_bytes(max(nsz, hlen), "big") + Pt[0].to_bytes(psz, "big") + msg
+    while True:
+        buf = _ref_tagged(b"BIP0340/nonce", buf, hf)
+        k0 = _ref_bits(buf, nlen)
+        if 0 < k0 < n:
+            break
+    R = _aff_mul(k0, ec.G, p, a)
+    k = k0 if R[1] % 2 == 0 else n - k0
+    e = _ref_bits(_ref_tagged(b"BIP0340/challenge", R[0].to_bytes(psz, "big") + Pt[0].to_bytes(psz, "big") + msg, hf), nlen) % n
+    return R[0], (k + e * d) % n, Pt[0]
+
+
+def _o_sign_reference(w):
+    ec, hf = _ec(w["curve"]), _HF[w["hf"]]
+    msg, q, aux = bytes.fromhex(w["msg"]), w["q"], bytes.fromhex(w["aux"])
+    r, sv, x = ref_sign(ec, hf, msg, q, aux)
+    for lib in (False, True):
+        with backend(lib):
+            try:
+                sg = ssa.sign_(msg, q, aux, ec, hf)
+            except Exception as e:  # noqa: BLE001 - zero challenge on a toy curve
+                return _cls(e) == "runtime" and ec.n < 2 ** 32, f"sign_ raised {type(e).__name__}: {e}"
+            if (sg.r, sg.s) != (r, sv):
+                return False, (f"{w['curve']}/{w['hf']} p_size={ec.p_size} n_size={ec.n_size}: btclib signs (r={sg.r}, s={sg.s}), "
+                               f"the BIP340 reference signs (r={r}, s={sv}) for q={q} msg={msg.hex()} aux={aux.hex()}")
+            if ssa.gen_keys(q, ec)[1] != x:
+                return False, "x-only public key differs from the reference"
+    return True, "ok"
+
+
+def _o_empty_commit(w):
+    """a present-but-empty commitment (b"") behaves like any other commitment, in every public spelling"""
+    ec, hf = _ec(w["curve"]), _HF[w["hf"]]
+    msg, q, aux, commit = bytes.fromhex(w["msg"]), w["q"], bytes.fromhex(w["aux"]), bytes.fromhex(w["commit"])
+    from btclib.exceptions import BTClibTypeError
+    with backend(w.get("lib", False)):
+        x = ssa.gen_keys(q, ec)[1]
+        for hashed in (False, True):
+            sign_f, ver_f, ass_f, kw = ((ssa.sign, ssa.verify, ssa.assert_as_valid, "commit") if hashed else
+                                        (ssa.sign_, ssa.verify_, ssa.assert_as_valid_, "commit_hash"))
+            name = "sign/verify" if hashed else "sign_/verify_"
+            try:
+                res = sign_f(msg, q, aux, ec, hf, **{kw: commit})
+            except Exception as e:  # noqa: BLE001
+                return _cls(e) == "runtime" and ec.n < 2 ** 32, f"{name}: signing raised {type(e).__name__}: {e}"
+            if not isinstance(res, tuple):
+                return False, f"{name}({kw}={commit!r}) returned a bare signature: the commitment was dropped"
+            sg, rec = res
+            plain = sign_f(msg, q, aux, ec, hf)
+            if (plain.r, plain.s) == (sg.r, sg.s):
+                return False, f"{name}: the committed signature equals the uncommitted one"
+            try:
+                opened = ver_f(msg, x, sg, hf, **{kw: commit}, receipt=rec)
+            except Exception as e:  # noqa: BLE001
+                return False, (f"{name}: verifying {kw}={commit!r} with its own receipt raised {type(e).__name__}: {e} "
+                               f"(q={q} msg={msg.hex()} aux={aux.hex()})")
+            if opened is not True:
+                return False, f"{name}: {kw}={commit!r} does not open with its own receipt"
+            try:
+                ass_f(msg, x, sg, hf, **{kw: commit}, receipt=rec)
+            except Exception as e:  # noqa: BLE001
+                return False, f"{name}: assert spelling raised {type(e).__name__}: {e} for {kw}={commit!r}"
+            for what, kwargs in (("commitment without receipt", {kw: commit}), ("receipt without commitment", {"receipt": rec})):
+                try:
+                    b = ver_f(msg, x, sg, hf, **kwargs)
+                except BTClibTypeError:
+                    continue
+                except Exception as e:  # noqa: BLE001
+                    return False, f"{name}: {what} raised {type(e).__name__}"
+                return False, f"{name}: {what} ({kw}={commit!r}) answered {b} instead of raising BTClibTypeError"
+            if ec.n > 2 ** 32 and ver_f(msg, x, sg, hf, **{kw: commit + b"x"}, receipt=rec):
+                return False, f"{name}: opens for another value"
+    return True, "ok"
 
 
 # ------------------------------------------------------------------ property oracles (real code only)
@@ -523,6 +646,8 @@ ORACLES = {
     "codec.roundtrip": _o_codec,
     "codec.canonical": _o_parse_canonical,
     "s2c.opens": _o_s2c,
+    "s2c.falsy_commit": _o_empty_commit,
+    "sign.reference": _o_sign_reference,
     "bip340.vector": _o_vector,
 }
 
@@ -715,6 +840,45 @@ def _s2c_lines(ctx, rng, tok, hf, count):
     return sign, ver
 
 
+FALSY_COMMITS = [None, b"", b"\x00", b"0"]
+
+
+def _opt_lines(ctx, rng, tok, hf, count):
+    """optional arguments present-but-falsy: commit None / b"" / b"\x00" / random, through sign_, sign, verify_, verify;
+    every (commit, receipt) presence combination on the verifying side; nonce 0 / n to commit_nonce_."""
+    ec = _ec(tok)
+    lines = []
+    for i in range(count):
+        msg = rng.choice([b"", b"\x00", _rb(rng, 32), _rb(rng, rng.choice([1, 33, 70]))])
+        q, aux = _key(rng, ec.n), _aux(rng, _hflen(hf))
+        commit = FALSY_COMMITS[i % len(FALSY_COMMITS)] if i < 2 * len(FALSY_COMMITS) else _rb(rng, rng.choice([1, 32, 40]))
+        ctok = "None" if commit is None else hx(commit)
+        for sop, vop, hashed in (("ssa.signopt", "ssa.verifyopt", False), ("ssa.signh", "ssa.verifyh", True)):
+            lines.append(f"{sop} {tok} {hf} {hx(msg)} {q} {hx(aux)} {ctok}")
+            try:
+                kw = {"commit": commit} if hashed else {"commit_hash": commit}
+                res = (ssa.sign if hashed else ssa.sign_)(msg, q, aux, ec, _HF[hf], verify=False, **kw)
+            except Exception:  # noqa: BLE001
+                continue
+            sg, rec = res if isinstance(res, tuple) else (res, None)
+            x = ssa.gen_keys(q, ec)[1]
+            other = mult(rng.randrange(1, ec.n), ec=ec)
+            rtok = "None None" if rec is None else f"{rec[0]} {rec[1]}"
+            combos = [(ctok, rtok), (ctok, "None None"), ("None", rtok), ("_", rtok), ("_", "None None"), ("None", "None None"),
+                      (ctok, f"{other[0]} {other[1]}"), ("00", rtok)]
+            for c2, r2 in combos:
+                ctx.count("ssa.opt#combo", ("commit=" + ("None" if c2 == "None" else "empty" if c2 == "_" else "bytes"))
+                          + ",receipt=" + ("None" if r2.startswith("None") else "point"))
+                lines.append(f"{vop} {tok} {hf} {hx(msg)} {x} {sg.r} {sg.s} {c2} {r2}")
+            # what is no signature is False before the TypeError
+            lines.append(f"{vop} {tok} {hf} {hx(msg)} {x} {sg.r} {sg.s + ec.n} {ctok} None None")
+            lines.append(f"{vop} {tok} {hf} {hx(msg)} {x} {ec.p} {sg.s} None {other[0]} {other[1]}")
+    for k in (0, ec.n, ec.n + 1, 1, ec.n - 1, rng.randrange(1, ec.n)):
+        for c in (b"", _rb(rng, 32)):
+            lines.append(f"ssa.commitnonce {tok} {hf} {hx(c)} {k}")
+    return lines
+
+
 def _codec_lines(ctx, rng, count):
     ser, par = [], []
     for _ in range(count):
@@ -810,6 +974,10 @@ def _run(ctx, rng, thorough):  # noqa: C901, PLR0912, PLR0915
             sgn, ver = _s2c_lines(ctx, rng, K1, "sha256", ctx.n(12, 150))
             ctx.stream(f"ssa.s2c.{arm}", sgn)
             ctx.stream(f"ssa.s2cv.{arm}", ver)
+            ctx.stream(f"ssa.opt.{arm}", _opt_lines(ctx, rng, K1, "sha256", ctx.n(10, 80)))
+            for commit in (b"", b"\x00", _rb(rng, 32)):
+                ctx.check("s2c.falsy_commit", {"curve": K1, "hf": "sha256", "msg": _rb(rng, rng.choice([0, 32])).hex(),
+                                               "q": _key(rng), "aux": _aux(rng, 32).hex(), "commit": commit.hex(), "lib": lib})
             for _ in range(ctx.n(12, 150)):
                 w = {"curve": K1, "hf": "sha256", "msg": _rb(rng, rng.choice(lens)).hex(), "q": _key(rng),
                      "aux": _aux(rng, 32).hex(), "lib": lib}
@@ -858,7 +1026,19 @@ def _run(ctx, rng, thorough):  # noqa: C901, PLR0912, PLR0915
                 other += _sign_lines(ctx, rng, tok, hf, ctx.n(2, 20), lens)[: ctx.n(6, 40)]
                 other += _verify_lines(ctx, rng, tok, hf, ctx.n(4, 40), "ssa.other")
             other += _batch_lines(ctx, rng, tok, "sha256", [3], "ssa.other", bad_every_position=False)
+        other += _opt_lines(ctx, rng, K1, "sha1", 4)
         ctx.stream("ssa.other", other)
+        # an independent reference signer written from the BIP: names the failing input when a field is serialized on the
+        # wrong number of octets (visible only where p_size != n_size) or a tag / mask / parity step changes
+        for tok in [t for t in _EC if not t.startswith("toy:")]:
+            ec = _ec(tok)
+            ctx.count("sign.reference#sizes", "p_size!=n_size" if ec.p_size != ec.n_size else "p_size==n_size")
+            for hf in ("sha256", "sha1", "sha512"):
+                for _ in range(ctx.n(2, 12)):
+                    ctx.check("sign.reference", {"curve": tok, "hf": hf, "msg": _rb(rng, rng.choice([0, 1, 32, 57])).hex(),
+                                                 "q": rng.randrange(1, ec.n), "aux": _aux(rng, _hflen(hf)).hex()})
+            ctx.check("s2c.falsy_commit", {"curve": tok, "hf": "sha256", "msg": "", "q": rng.randrange(1, ec.n),
+                                           "aux": _aux(rng, 32).hex(), "commit": ""})
         for hf in [h for h in _HF if h != "sha256"]:
             ctx.check("sign.verifies", {"curve": K1, "hf": hf, "msg": _rb(rng, 33).hex(), "q": _key(rng),
                                         "aux": _aux(rng, _hflen(hf)).hex(), "lib": True})
@@ -933,6 +1113,12 @@ def _run(ctx, rng, thorough):  # noqa: C901, PLR0912, PLR0915
             s2[1].extend(b)
             ctx.check("s2c.opens", {"curve": tok, "hf": "sha256", "msg": _rb(rng, 9).hex(), "q": rng.randrange(1, ec.n),
                                     "aux": _aux(rng, 32).hex(), "commit": _rb(rng, 32).hex()})
+        ol = []
+        for tok, ec in prime[:: (1 if thorough else 3)]:
+            ol += _opt_lines(ctx, rng, tok, rng.choice(["sha256", "sha1"]), ctx.n(8, 40))
+            ctx.check("sign.reference", {"curve": tok, "hf": "sha256", "msg": _rb(rng, 5).hex(), "q": rng.randrange(1, ec.n),
+                                         "aux": _aux(rng, 32).hex()})
+        ctx.stream("ssa.opt.toy", ol)
         ctx.stream("ssa.s2c.toy", s2[0])
         ctx.stream("ssa.s2cv.toy", s2[1])
 
